@@ -275,6 +275,18 @@ func c18Run(ctx *core.Ctx) {
 			}
 		}
 	}
+	// thorough: all 4-code-point patterns over a reduced alphabet (string column, one cell order)
+	if !ctx.Quick() {
+		red := []string{"a", "A", "\u0131", "\u0250", "\u0080", "%", "."}
+		forEachSeq(4, len(red), func(pick []int) {
+			p := red[pick[0]] + red[pick[1]] + red[pick[2]] + red[pick[3]]
+			for _, cmp := range []string{"like", "ilike"} {
+				if ctx.Mine() {
+					exec(likeCase{Pattern: p, Cmp: cmp, Order: orders[(pick[0]+pick[3])%3]}, "string4/"+cmp)
+				}
+			}
+		})
+	}
 	// buffer reuse: a 14-cell core in all sequences of 3, for the case-insensitive matchers and for ToUpper itself
 	coreCells := []string{"a", "\u0131", "\u0250", "a\u0131b", "\u0250\u0250\u0250\u0250", "aaaaaaaaa", "aaaaaaaaa\u0131", "aaaaaaaaaaa\u0250", "\u00dfa", "a\u0080", "\u017f\u017f\u017f\u017f\u017f\u017f", "", "A", "bbbbbbbbbbbbbbbbbbbb\u0250"}
 	corePats := []string{"a%", "%\u0131", "%A%", "aib", "%\u0250", "s%", "%\u0080"}
@@ -315,7 +327,7 @@ func init() {
 		},
 		Bound: map[string]string{
 			"quick":    "all patterns of <= 2 code points on three cell orders, 3-code-point patterns on one order each; enum chunks on the ascending order",
-			"thorough": "all patterns on all three orders for string and enum columns",
+			"thorough": "all patterns on all three orders for string and enum columns; all 4-code-point patterns over a 7-symbol alphabet on string columns",
 		},
 		Run:    c18Run,
 		Replay: replayAs(runLikeCase),
